@@ -3,7 +3,7 @@
 #   the worktree is reset to HEAD + /tmp/wt_out/<name>/patch.diff; demo fails with the change, the unedited suite
 #   passes with it, demo passes without it.  Writes /tmp/wt_out/<name>/confirm.json.  (No `git stash`: it is shared
 #   between worktrees.)
-id=$1; name=${2:-$1}; wt=/tmp/wt/$name; out=/tmp/wt_out/$name
+id=$1; name=${2:-$1}; wt=/tmp/wt/${3:-$name}; out=/tmp/wt_out/$name
 cd $wt || exit 2
 git checkout -q -- . && git apply $out/patch.diff || { echo "patch does not apply"; exit 2; }
 PYTHONPATH=$wt timeout 300 /venv/bin/python $out/demo.py > $out/demo_with.log 2>&1; with=$?
